@@ -11,7 +11,7 @@ byte_val = st.one_of(st.sampled_from(_SPECIAL), st.integers(0, 255))
 
 # byte sequences that text-oriented code (strip / split / decode / printf-style formatting) treats specially; binary
 # values may start or end with any of them
-EDGES = [b"\r\n", b"\n", b"\r", b" ", b"\t", b"\x00", b"\x00\x00", b"\n\n", b"\r\n\r\n", b"==", b"=", b"\xff\xff\xff", b"%", b"%41", b"+", b"\x85", b"\xa0", b"\x1f", b"\x0b", b"\x0c", b"\\", b'"', b"'"]
+EDGES = [b"\r\n", b"\n", b"\r", b" ", b"\t", b"\x00", b"\x00\x00", b"\n\n", b"\r\n\r\n", b"==", b"=", b"\xff\xff\xff", b"%", b"%41", b"+", b"\x85", b"\xa0", b"\x1f", b"\x0b", b"\x0c", b"\\", b'"', b"'", b"/", b"//", b"/id/", b"?", b"#", b"&", b";"]
 
 
 def _with_edges(t):
@@ -263,4 +263,6 @@ def http_beacon_config(draw, printable=True):
         "jitter": draw(st.integers(0, 50)),
         "useragent": draw(st.sampled_from(["Mozilla/5.0 (Windows NT 10.0; Win64; x64)", "curl/8.0", "Mozilla/4.0 (compatible; MSIE 8.0)"])),
         "key": "rsa_1024_a",
+        # listener host header (domain fronting): mostly absent
+        "host_header": draw(st.sampled_from(["", "", "Host: fronted.example.org", "Host: cdn.example.net:8443"])),
     }
